@@ -92,7 +92,7 @@ class PixCoord:
         Whether the instance is scalar (e.g., a single (x, y)
         coordinate).
         """
-        return np.isscalar(self.x)
+        return np.isscalar(self.x) and np.isscalar(self.y)
 
     def __repr__(self):
         return f'{self.__class__.__name__}(x={self.x}, y={self.y})'
